@@ -242,7 +242,12 @@ def main(argv):
     disagreements = []
     n_programs = 0
     if "corr" in P["stages"] and not binfo.get("go_fail"):
-        res = corr.run_corr(cdir, seed, tier, log=lambda s: print("[check]", s))
+        try:
+            res = corr.run_corr(cdir, seed, tier, log=lambda s: print("[check]", s))
+        except Exception as ex:
+            import traceback
+            broken_obl.append("stage corr of the machinery crashed on this tree: %r %s" % (ex, traceback.format_exc()[-400:]))
+            res = {"records": [], "distribution": {}, "sources": {}}
         recs = res["records"]
         n_programs += len(recs)
         coverage_extra["corr_distribution"] = res["distribution"]
@@ -294,7 +299,12 @@ def main(argv):
                 m = __import__("vlib." + modname, fromlist=["run"])
             except ImportError:
                 continue
-            sres = m.run(cdir, seed, tier, prop, log=lambda s: print("[check]", s))
+            try:
+                sres = m.run(cdir, seed, tier, prop, log=lambda s: print("[check]", s))
+            except Exception as ex:     # the stage itself fell over on this tree: nothing it would have shown is shown
+                import traceback
+                broken_obl.append("stage %s of the machinery crashed on this tree: %r %s" % (stage, ex, traceback.format_exc()[-400:]))
+                continue
             n_programs += sres.get("programs", 0)
             coverage_extra[stage] = sres.get("coverage", {})
             samples += sres.get("samples", [])[:2]
